@@ -153,6 +153,16 @@ PROPS = {
                    "(file order for CSR layouts, unique edge ids for layouts with free node order), views are permutations grouped correctly, local ranges partition [0,n).",
         level_note="Sampling over seeds. Sequential lookups ride along as oracle reads; what the simulator adds are the interleavings of the per-thread construction, the fromFileInterleaved condvar hand-shake and the atomic slot claiming in transpose / in-edge construction.",
         **tiers(4000, 150, 100000, 1800)),
+    "C12": dict(
+        jobs=[dict(harness="c12_files", variant="a", weight=2), dict(harness="c12_files", variant="n", weight=1)],
+        components=comp(extra_stub=["file layer: real files in a per-run scratch directory; write/pwrite/read/pread issued with shortened counts (short I/O faults)"]),
+        expected_probes=["edges_checked"],
+        design_ref="3.12",
+        level_text="I/O-facing half of the property only: FileGraphWriter + toFile under injected short writes must produce bytes identical to the harness's independent encoder; whole reads (fromFile / fromFileInterleaved), "
+                   "partFromFile at generated split points, OfflineGraph (seek + read), BufferedGraph partial loads and OfflineGraphWriter are compared with the generator's edge list through an independent decoder, "
+                   "for format versions 1 and 2, edge data widths 0/4/8, odd and even edge counts, under injected short reads.",
+        level_note="That each graph-convert option computes the documented graph is a pure function of the input file and is NOT decided here (DESIGN 3.12); BufferedGraph is exercised for version 1 only (documented limitation).",
+        **tiers(5000, 100, 100000, 1200)),
 }
 
 ALL_IDS = ["C%02d" % i for i in range(1, 21)]
